@@ -18,7 +18,7 @@ CHECKS = {
                 "Lipschitz bound; for every accuracy-stopped run whose reliability precondition holds (evaluated "
                 "from the observed history) the stated bound on best - f* is asserted. Exploration, not proof: the "
                 "theorem is quantified over all Lipschitz functions and the check samples them; the bound has a "
-                "factor 2-3 of slack, so it detects damaged searches, not marginally weakened ones. Runs include 1-D thin boxes, eps down to 1e-6 and a first Solve with a small budget that is raised before the deciding Solve. A quarter of the cases refine; about 1 % are very long runs (32,000 trials) on a flat objective with one narrow well; objectives may carry a level of 1e2..1e7 and problems may return a new value holder. First trials may be requested in DoGlobalIteration batches (incl. one large batch on a steep zigzag); the budget raise also runs on boxes with all sides below 1.",
+                "factor 2-3 of slack, so it detects damaged searches, not marginally weakened ones. Runs include 1-D thin boxes, eps down to 1e-6 and a first Solve with a small budget that is raised before the deciding Solve. A quarter of the cases refine; about 1 % are very long runs (32,000 trials) on a flat objective with one narrow well; objectives may carry a level of 1e2..1e7 and problems may return a new value holder. First trials may be requested in DoGlobalIteration batches (incl. one large batch on a steep zigzag); the budget raise also runs on boxes with all sides below 1. A tenth of the cases inject one transient objective failure (KeyboardInterrupt, a BaseException subclass or ValueError) and call Solve again.",
                 note="Trusted: closed-form minima / Lipschitz bounds of the generated families (vlib/objectives.py), "
                 "the independent AGP model (vlib/agp.py), history taken from listener items. Precondition evaluated "
                 "with M at the last decision, conclusion with final M (subset of the stated hypothesis).",
@@ -27,7 +27,7 @@ CHECKS = {
                 "of every generated run is replayed in an independent re-statement of the AGP decision rule",
                 text="Each generated run (all objective families incl. constant/step/quantised ones, N=1..5, Solve "
                 "or DoGlobalIteration batches) is replayed trial by trial in an independent model: arg-max interval "
-                "(ties free), new-point formula, strict interior, no repeated coordinate, first trial at 0.5. Runs may continue 50-500 trials past a small itersLimit, with an optional Solve and an optional DoLocalRefinement in between; user problems may return a new value holder or numpy scalars. A transient objective failure may occur between the trials.",
+                "(ties free), new-point formula, strict interior, no repeated coordinate, first trial at 0.5. Runs may continue 50-500 trials past a small itersLimit, with an optional Solve and an optional DoLocalRefinement in between; user problems may return a new value holder or numpy scalars. A transient objective failure may occur between the trials. One recipe in sixteen has values of magnitude 1e150..1e305 (squares overflow, values and differences stay finite); the model takes the quotients first.",
                 note="Trusted: vlib/agp.py (60-line model), Hypothesis generators; tolerances 1e-9 relative on "
                 "characteristics and 1e-12+1e-9*len on points.", ref="3/C02"),
     "C03": dict(cat="exploration", tech="property-based testing (Hypothesis): history-based oracle for evaluation "
@@ -35,7 +35,7 @@ CHECKS = {
                 "(itersLimit 1/2, eps>=1, eps equal to a reachable Hoelder length)",
                 text="One Solve() per generated (objective, box, r, eps, itersLimit); the number of evaluations, the "
                 "reported counts, the budget, the exact stopping index and the reported accuracy are recomputed from "
-                "the observed history. Termination is decided by an evaluation-count guard. A quarter of the cases spend budget through DoGlobalIteration first and call Solve repeatedly; a sixth raise itersLimit after a first Solve. A tenth of the cases run into the float resolution under an executed-line termination bound; startPoint may be set. Objectives that start returning NaN or an infinity must not keep Solve from returning.",
+                "the observed history. Termination is decided by an evaluation-count guard. A quarter of the cases spend budget through DoGlobalIteration first and call Solve repeatedly; a sixth raise itersLimit after a first Solve. A tenth of the cases run into the float resolution under an executed-line termination bound; startPoint may be set. Objectives that start returning NaN or an infinity must not keep Solve from returning. Values of magnitude 1e150..1e305 as in C02; at a float-resolution stop the reported accuracy must still be the smallest subdivided Hoelder length.",
                 note="Trusted: independent model for interval lengths; strictness of '<' read from the solver's own "
                 "reported accuracy; infinite loops without evaluations only surface as a watchdog (exit 2).",
                 ref="3/C03"),
@@ -49,14 +49,14 @@ CHECKS = {
     "C05": dict(cat="exploration", tech="property-based testing (Hypothesis): box-containment invariant over the "
                 "evaluation log plus metamorphic check of refinement (never worse, value = objective at point)",
                 text="Generated objectives whose descent direction leaves the box (linear, outside-vertex bowls, "
-                "kinks on faces), all dimensions, thin and far-from-origin boxes, refinement on/off, tiny budgets. Refinement may be requested explicitly (DoLocalRefinement(k), repeated, alternating with global iterations); integer-typed boxes; another solver may run before the result is read. startPoint may lie beyond the box.",
-                note="Containment tolerance 1e-12*(|lower|+|upper|+width); global phase = first numberOfGlobalTrials "
+                "kinks on faces), all dimensions, thin and far-from-origin boxes, refinement on/off, tiny budgets. Refinement may be requested explicitly (DoLocalRefinement(k), repeated, alternating with global iterations); integer-typed boxes; another solver may run before the result is read. startPoint may lie beyond the box. Containment is exact (no tolerance); one case in eight pushes a 1-D search to the float resolution next to a face of the box.",
+                note="Containment exact; global phase = first numberOfGlobalTrials "
                 "log entries.", ref="3/C05"),
     "C06": dict(cat="exploration", tech="property-based testing (Hypothesis): after every call the search "
                 "information is traversed and compared with the evaluation log, a fresh Evolvent and the listener's "
                 "items (model = multiset of evaluations)",
                 text="Order, links, count, interval lengths, stored points (bit-equal to a fresh evolvent image) and "
-                "stored values are checked after every DoGlobalIteration/Solve call of generated runs. Cases include SolverParameters.startPoint, runs pushed to the float resolution of the curve coordinate, and problems that return a new value holder. An observer may replace the problem object's bound attributes during the run; a shipped static painter may be attached.",
+                "stored values are checked after every DoGlobalIteration/Solve call of generated runs. Cases include SolverParameters.startPoint, runs pushed to the float resolution of the curve coordinate, and problems that return a new value holder. An observer may replace the problem object's bound attributes during the run; a shipped static painter may be attached. Values of magnitude 1e150..1e305 as in C02.",
                 note="refineSolution=False; length tolerance 1e-12 relative.", ref="3/C06"),
     "C07": dict(cat="exploration", tech="exhaustive enumeration of all subintervals up to N*m<=20 (quick) / 24 "
                 "(thorough) with an induction step over levels, plus Hypothesis-generated deep cases (exact dyadic x, "
@@ -64,7 +64,7 @@ CHECKS = {
                 text="Bijection onto the grid is enumerated directly at the base levels and carried to deeper levels "
                 "by checking, for EVERY subinterval of a level, that its 2^N children are distinct centres inside "
                 "its cell; deep levels (up to N*m=50) are sampled with generators aimed at the ends, the tail and "
-                "sub-cube boundaries. Exhaustive in the stated scope, sampled beyond it. The box is configured through the constructor, SetBounds (new or used object), aliased or integer-typed bound arrays, or reached through a query history.",
+                "sub-cube boundaries. Exhaustive in the stated scope, sampled beyond it. The box is configured through the constructor, SetBounds (new or used object), aliased or integer-typed bound arrays, or reached through a query history (which includes taking a non-centre point of the cell back to the curve and asking for the image at the returned abscissa).",
                 note="Trusted: exact dyadic construction of x (n/2^53), Fraction arithmetic for indices, unit-cube "
                 "centres are exact doubles; non-unit boxes within a stated rounding allowance.", ref="3/C07"),
     "C08": dict(cat="exploration", tech="exhaustive enumeration of all consecutive subinterval pairs up to N*m<=20 "
@@ -72,14 +72,14 @@ CHECKS = {
                 "Hoelder inequality",
                 text="Face adjacency of consecutive cells is enumerated completely in the stated scope and sampled up "
                 "to N*m=50; nesting reuses the C07 child check; the Hoelder bound is checked on generated pairs at "
-                "every scale 2^-k incl. pairs straddling sub-cube boundaries, on arbitrary boxes. Same configuration/history variants as C07.",
+                "every scale 2^-k incl. pairs straddling sub-cube boundaries, on arbitrary boxes. Same configuration/history variants as C07 (incl. sides 1e6..2e9 widths away from the origin for m <= 10).",
                 note="Trusted: exact dyadic x, unit-cube cell arithmetic; inequality with factor 1+1e-12 plus a few ulp "
                 "of the bounds.", ref="3/C08"),
     "C09": dict(cat="exploration", tech="round-trip property-based testing (Hypothesis) in both directions plus "
                 "exhaustive x->y->x round trip for N*m<=18 (quick) / 22 (thorough)",
                 text="inverse(image(x)) must equal floor(x*T)/T exactly; image(inverse(y)) must lie within half a cell "
                 "of y for y uniform, on cell boundaries, faces, corners, centres, as array / list / integer list; "
-                "GetPreimages == GetInverseImage; N=1 affine maps. Same configuration/history variants as C07.",
+                "GetPreimages == GetInverseImage; N=1 affine maps. Same configuration/history variants as C07 (incl. sides 1e6..2e9 widths away from the origin for m <= 10).",
                 note="Trusted: exact index arithmetic (Fraction); forward round trip on non-unit boxes only where the "
                 "affine map's rounding allowance is < 0.01 cell.", ref="3/C09"),
     "C10": dict(cat="exploration", tech="generated-point counter-example search per benchmark instance (grid + "
@@ -95,7 +95,7 @@ CHECKS = {
                 "all compositions (n<=10 exhaustive) and generated compositions of the iteration count",
                 text="For every batching of the iterations into DoGlobalIteration calls followed by Solve (all 2^(n-1) "
                 "compositions for n<=10, generated ones beyond), the trial sequence must be the prefix of the "
-                "single-batch reference bit for bit, the repeated run identical, and a second Solve adds nothing. A third of the cases also repeat a default-parameter run around the creation of another default-parameter solver (N up to 7).",
+                "single-batch reference bit for bit, the repeated run identical, and a second Solve adds nothing. A third of the cases also repeat a default-parameter run around the creation of another default-parameter solver (N up to 7). A sixth of the cases re-target every run to the same sub-box through the solver's evolvent first.",
                 note="Oracle is the implementation itself under a different call pattern (differential); hidden "
                 "randomness shows as run-to-run difference within a process.", ref="3/C11"),
     "C12": dict(cat="exploration", tech="stateful property-based testing (Hypothesis RuleBasedStateMachine) over "
@@ -111,7 +111,7 @@ CHECKS = {
                 "without listeners; parsing of the console report",
                 text="Every subset of overridden callbacks, combinations with the shipped console and painting "
                 "listeners (Agg backend, temporary directory), every batching: notification count/order/content via "
-                "a shared event counter, and equality of trial sequence and result with the listener-free run. Includes refineSolution=True, value-equal listeners and objective faults with listeners attached (weak oracle: no phantom trial, nothing escapes Solve). User callbacks use parameter names of their own; problems may lack a dimension attribute.",
+                "a shared event counter, and equality of trial sequence and result with the listener-free run. Includes refineSolution=True, value-equal listeners and objective faults with listeners attached (weak oracle: no phantom trial, nothing escapes Solve). User callbacks use parameter names of their own; problems may lack a dimension attribute. Shipped listeners are tapped so that an exception Solve contains is still seen; a painter fit failure escaping from Solve is a violation.",
                 note="Painters' extra objective probes are recognised by event number and excluded from the trial log; "
                 "solvingTime is excluded from result comparison.", ref="3/C13"),
     "C14": dict(cat="exploration", tech="property-based testing over all 400 GKLS functions with generated points "
@@ -119,7 +119,7 @@ CHECKS = {
                 "and a golden reference recorded from the pinned commit",
                 text="Structure (10 minimisers, disjoint balls, paraboloid outside, prescribed values, global minimum "
                 "at class distance/radius/value), continuity across ball boundaries with a derived slope bound, and "
-                "reproducibility against golden/gkls_reference.json and across repeated constructions. Also: an object regenerated with function.SetFunctionNumber equals a new one; hard-class namesakes built in the same process do not interfere. The tables of an existing function are compared again after other functions were constructed.",
+                "reproducibility against golden/gkls_reference.json and across repeated constructions. Also: an object regenerated with function.SetFunctionNumber equals a new one; hard-class namesakes built in the same process do not interfere. The tables of an existing function are compared again after other functions were constructed. One object is asked again for numbers it has generated before.",
                 note="Golden file shows the generator did not change since the pinned commit; agreement with the "
                 "published C generator is not decidable offline.", ref="3/C14"),
     "C15": dict(cat="exploration", tech="stateful property-based testing (Hypothesis RuleBasedStateMachine): "
@@ -132,7 +132,7 @@ CHECKS = {
                 "generated run and nine exception types in three construction forms, oracle = prefix of the clean run + C06 invariants",
                 text="For each generated problem the clean run is recorded, then the objective is armed to raise at "
                 "every k in 2..n for each exception type (incl. KeyboardInterrupt, SystemExit, GeneratorExit); "
-                "Solve must return and reflect exactly the k-1 completed trials. Nine exception types, each built with a message, without arguments or with several; the listener must have been told exactly the completed trials. The reported accuracy must be one a completed trial reached; a search resumed by a second Solve, and failures inside the local refinement, are checked the same way.",
+                "Solve must return and reflect exactly the k-1 completed trials. Nine exception types, each built with a message, without arguments or with several; the listener must have been told exactly the completed trials. The reported accuracy must be one a completed trial reached; a search resumed by a second Solve, and failures inside the local refinement, are checked the same way. Two runs per case attach a shipped painter that draws the objective while the objective keeps failing from evaluation k on, or fails once among the painter's own evaluations.",
                 note="All fault positions of the sampled runs are enumerated; the runs themselves are sampled.",
                 ref="3/C16"),
     "C17": dict(cat="exploration", tech="stateful property-based testing (Hypothesis RuleBasedStateMachine) on one "
@@ -140,7 +140,7 @@ CHECKS = {
                 text="Interleaved GetImage / GetInverseImage / GetPreimages / SetBounds calls with arguments as array, "
                 "list or integer list; every result must be bit-equal to a fresh object's, arguments unchanged "
                 "(dtype included), previously returned arrays unchanged.", note="Oracle shares the implementation "
-                "(differential against a fresh instance), so it decides purity, not correctness (C07-C09 do). Bounds may be integer-typed at construction, computed from the object's own arrays, or nudged in the 6th-16th digit.",
+                "(differential against a fresh instance), so it decides purity, not correctness (C07-C09 do). Bounds may be integer-typed at construction, computed from the object's own arrays, or nudged in the 6th-16th digit; SetBounds is also called with an unusable upper argument (if rejected, the object must be as before).",
                 ref="3/C17"),
     "C18": dict(cat="exploration", tech="enumeration of every constructor argument of every family (metadata) and of "
                 "all 2x1000 table rows against a 1e6-point grid + polishing of every local extremum",
@@ -157,7 +157,7 @@ CHECKS = {
     "C20": dict(cat="exploration", tech="property-based testing (Hypothesis) with a grid-membership oracle and a "
                 "metamorphic relation on the density parameter",
                 text="Every evaluation point of generated runs (density 2..12, N=2..5, arbitrary boxes) must be a "
-                "cell centre of the configured density; a centre of one density is never a centre of another. eps is drawn above and below the cell size. Parameters may be assigned after construction, the same box handed again through SetBounds, a transient objective failure injected.",
+                "cell centre of the configured density; a centre of one density is never a centre of another. eps is drawn above and below the cell size. Parameters may be assigned after construction, the same box handed again through SetBounds, a transient objective failure injected. The solver may be re-targeted to a fractional sub-box through its own evolvent (integer-typed constructor bounds included).",
                 note="Tolerance 1e-6 cell.", ref="3/C20"),
 }
 
